@@ -283,3 +283,296 @@ theorem tryFromFd_safe (env : Env) (inner : Fd) (hi : 0 ≤ inner) :
         · intro e _; exact ProcHOk_err e
     · intro e _; exact ProcHOk_err e
   · intro e _; exact ProcHOk_err e
+
+theorem ProcH_bind {p : M ProcH} {f : ProcH → M ProcH}
+    (hp : Safe (Disc b) p ProcHOk) (hf : ∀ h, 0 ≤ h.fd → Safe (Disc b) (f h) ProcHOk) :
+    Safe (Disc b) (M.bind' p f) ProcHOk :=
+  Safe.mbind hp (fun h hh => hf h (hh h rfl)) (fun e _ => ProcHOk_err e)
+
+theorem fdcall_safe (c : Call) (hc : Disc b c) (site : String) :
+    Safe (Disc b) (do
+      match ← M.call c with
+      | .fd n => pure n
+      | .err e => throw (.os e)
+      | _ => throw (.badResp site) : M Fd) FdOk := by
+  refine Safe.mbind (Q' := fun r => ∀ x, r = .ok x → x.sane) (Safe.mcall hc ?_) ?_ ?_
+  · intro r hr x hx; cases hx; exact hr
+  · intro r hr
+    split
+    · intro fd h; cases h; exact hr _ rfl
+    · exact FdOk_err _
+    · exact FdOk_err _
+  · intro e _; exact FdOk_err e
+
+theorem fsopen_safe : Safe (Disc b) (Sys.fsopen b!"proc" FSOPEN_CLOEXEC) FdOk := by
+  unfold Sys.fsopen
+  exact fdcall_safe (.fsopen b!"proc" FSOPEN_CLOEXEC) rfl _
+
+theorem fsconfigSetString_safe (sfd : Fd) (k v : Bytes) (hs : 0 ≤ sfd) :
+    Safe (Disc b) (Sys.fsconfigSetString sfd k v) (fun _ => True) := by
+  unfold Sys.fsconfigSetString
+  apply Safe.mbind (Q' := fun _ => True) (Safe.ofExcept trivial)
+  · intro _ _; exact unitCall_safe (.fsconfigSetString sfd k v) _ _ hs
+  · intro _ _; trivial
+
+theorem setSubsetOptions_safe (sfd : Fd) (subset : Bool) (hs : 0 ≤ sfd) :
+    Safe (Disc b) (Procfs.setSubsetOptions sfd subset) (fun _ => True) := by
+  unfold Procfs.setSubsetOptions
+  split
+  · apply Safe.mbind (Q' := fun _ => True) (try_any (fsconfigSetString_safe sfd _ _ hs))
+    · intro _ _
+      apply Safe.mbind (Q' := fun _ => True) (try_any (fsconfigSetString_safe sfd _ _ hs))
+      · intro _ _; exact trivial
+      · intro _ _; trivial
+    · intro _ _; trivial
+  · exact trivial
+
+theorem fsconfigCreate_safe (sfd : Fd) (hs : 0 ≤ sfd) :
+    Safe (Disc b) (Sys.fsconfigCreate sfd) (fun _ => True) := by
+  unfold Sys.fsconfigCreate
+  apply Safe.mbind (Q' := fun _ => True) (Safe.ofExcept trivial)
+  · intro _ _; exact unitCall_safe (.fsconfigCreate sfd) _ _ hs
+  · intro _ _; trivial
+
+theorem fsmount_safe (sfd : Fd) (f a : Nat) (hs : 0 ≤ sfd) :
+    Safe (Disc b) (Sys.fsmount sfd f a) FdOk := by
+  unfold Sys.fsmount
+  apply wrapper_safe sfd (.fsmount sfd f a) _ FdOk FdOk_err (fun _ => hs)
+  intro r hr
+  split
+  · intro fd h; cases h; exact hr
+  · exact failWith_safe _ _ _ FdOk_err
+  · exact FdOk_err _
+
+theorem newFsopen_safe (env : Env) (subset : Bool) :
+    Safe (Disc b) (Procfs.newFsopen env subset) ProcHOk := by
+  unfold Procfs.newFsopen
+  apply Safe.mbind (Q' := FdOk) fsopen_safe
+  · intro sfd hsfd
+    have hs : 0 ≤ sfd := hsfd sfd rfl
+    apply Safe.mbind (Q' := fun _ => True) (setSubsetOptions_safe sfd subset hs)
+    · intro _ _
+      apply Safe.mbind (Q' := fun _ => True) (onErr_any (fsconfigCreate_safe sfd hs) (close_safe _))
+      · intro _ _
+        apply Safe.mbind (Q' := FdOk) (onErr_fd (fsmount_safe sfd _ _ hs) (close_safe _))
+        · intro mnt hmnt
+          apply ProcH_bind (Safe.onErr (tryFromFd_safe env mnt (hmnt mnt rfl)) (close_safe _)
+            (fun _ e' _ => ProcHOk_err e'))
+          intro h hh
+          apply Safe.mbind (Q' := fun _ => True) (lift_any (close_safe _))
+          · intro _ _ h' hh'; cases hh'; exact hh
+          · intro e _; exact ProcHOk_err e
+        · intro e _; exact ProcHOk_err e
+      · intro e _; exact ProcHOk_err e
+    · intro e _; exact ProcHOk_err e
+  · intro e _; exact ProcHOk_err e
+
+theorem newOpenTree_safe (env : Env) (flags : Nat) :
+    Safe (Disc b) (Procfs.newOpenTree env flags) ProcHOk := by
+  unfold Procfs.newOpenTree
+  have hopen : Safe (Disc b) (Sys.openTree AT_FDCWD b!"/proc" (OPEN_TREE_CLONE ||| flags)) FdOk := by
+    unfold Sys.openTree
+    apply wrapper_safe AT_FDCWD (.openTree AT_FDCWD b!"/proc" (OPEN_TREE_CLONE ||| flags)) _ FdOk FdOk_err (fun _ => ⟨rfl, rfl⟩)
+    intro r hr
+    split
+    · intro fd h; cases h; exact hr
+    · exact failWith_safe _ _ _ FdOk_err
+    · exact FdOk_err _
+  apply Safe.mbind (Q' := FdOk) hopen
+  · intro fd hfd; exact tryFromFd_safe env fd (hfd fd rfl)
+  · intro e _; exact ProcHOk_err e
+
+theorem newUnsafeOpen_safe (env : Env) : Safe (Disc b) (Procfs.newUnsafeOpen env) ProcHOk := by
+  unfold Procfs.newUnsafeOpen
+  apply Safe.mbind (Q' := FdOk) (openat_proc_safe _ _)
+  · intro fd hfd; exact tryFromFd_safe env fd (hfd fd rfl)
+  · intro e _; exact ProcHOk_err e
+
+theorem orElse_safe {α : Type} {p q : M α} {Q : Except Err α → Prop} (hq' : ErrOk Q)
+    (hp : Safe (Disc b) p Q) (hq : Safe (Disc b) q Q) : Safe (Disc b) (Procfs.orElse p q) Q := by
+  unfold Procfs.orElse
+  apply Safe.mbind (Q' := fun r => ∀ x, r = .ok x → Q x)
+  · apply Safe.try' hp
+    · intro a ha x hx; cases hx; exact ha
+    · intro e _; exact ⟨fun x hx => by cases hx; exact hq' e, fun x hx => by cases hx⟩
+  · intro r hr
+    split
+    · exact hr _ rfl
+    · exact hq
+  · intro e _; exact hq' e
+
+theorem new_safe (env : Env) : Safe (Disc b) (Procfs.new env) ProcHOk := by
+  unfold Procfs.new
+  exact orElse_safe ProcHOk_err (newFsopen_safe env true)
+    (orElse_safe ProcHOk_err (newOpenTree_safe env _) (newUnsafeOpen_safe env))
+
+theorem newUnmasked_safe (env : Env) : Safe (Disc b) (Procfs.newUnmasked env) ProcHOk := by
+  unfold Procfs.newUnmasked
+  exact orElse_safe ProcHOk_err (newFsopen_safe env false)
+    (orElse_safe ProcHOk_err (newOpenTree_safe env _) (newUnsafeOpen_safe env))
+
+theorem openBase_safe (env : Env) (h : ProcH) (base : Procfs.Base) (hh : 0 ≤ h.fd) :
+    Safe (Disc b) (Procfs.openBase env h base) FdOk := by
+  unfold Procfs.openBase
+  apply Safe.mbind (Q' := fun _ => True) (intoPath_safe base h.fd hh)
+  · intro path _
+    apply Safe.mbind (Q' := FdOk) (resolve_safe env h.emulated h.fd path _ 0 hh)
+    · intro fd hfd
+      have hf : 0 ≤ fd := hfd fd rfl
+      apply Safe.mbind (Q' := fun _ => True)
+        (onErr_any (verifySameProcfsMnt_safe h fd hf) (close_safe _))
+      · intro _ _ fd' h'; cases h'; exact hf
+      · intro e _; exact FdOk_err e
+    · intro e _; exact FdOk_err e
+  · intro e _; exact FdOk_err e
+
+theorem openH_safe (env : Env) (fuel : Nat) : ∀ (h : ProcH) (base : Procfs.Base) (subpath : Bytes)
+    (oflags : Nat), 0 ≤ h.fd → Safe (Disc b) (Procfs.openH env fuel h base subpath oflags) FdOk := by
+  induction fuel with
+  | zero => intro h base subpath oflags _; unfold Procfs.openH; exact FdOk_err _
+  | succ n ih =>
+    intro h base subpath oflags hh
+    unfold Procfs.openH
+    apply Safe.mbind (Q' := FdOk) (openBase_safe env h base hh)
+    · intro basedir hbd
+      have hb : 0 ≤ basedir := hbd basedir rfl
+      have hfirst : Safe (Disc b) (do
+          let fd ← Procfs.resolve env h.emulated basedir subpath (oflags ||| O_NOFOLLOW) 0
+          (Procfs.verifySameProcfsMnt h fd).onErr (Sys.close fd)
+          pure fd : M Fd) FdOk := by
+        apply Safe.mbind (Q' := FdOk) (resolve_safe env h.emulated basedir subpath _ 0 hb)
+        · intro fd hfd
+          have hf : 0 ≤ fd := hfd fd rfl
+          apply Safe.mbind (Q' := fun _ => True)
+            (onErr_any (verifySameProcfsMnt_safe h fd hf) (close_safe _))
+          · intro _ _ fd' h'; cases h'; exact hf
+          · intro e _; exact FdOk_err e
+        · intro e _; exact FdOk_err e
+      apply Safe.mbind (Q' := fun r => ∀ x, r = .ok x → FdOk x) (try_fd hfirst)
+      · intro first hfirst'
+        split
+        · rename_i fd
+          apply Safe.mbind (Q' := fun _ => True) (lift_any (close_safe _))
+          · intro _ _; exact hfirst' _ rfl
+          · intro e _; exact FdOk_err e
+        · rename_i e
+          split
+          · apply Safe.mbind (Q' := fun r => ∀ x, r = .ok x → ProcHOk x)
+            · apply Safe.try' (newUnmasked_safe env)
+              · intro a ha x hx; cases hx; exact ha
+              · intro e' _; exact ⟨fun x hx => by cases hx; exact ProcHOk_err e', fun x hx => by cases hx⟩
+            · intro r hr
+              split
+              · apply Safe.mbind (Q' := fun _ => True) (lift_any (close_safe _))
+                · intro _ _; exact FdOk_err _
+                · intro e _; exact FdOk_err e
+              · rename_i h2
+                have h2ok : 0 ≤ h2.fd := hr _ rfl h2 rfl
+                split
+                · apply Safe.mbind (Q' := fun _ => True) (lift_any (closeAll_safe _))
+                  · intro _ _; exact FdOk_err _
+                  · intro e _; exact FdOk_err e
+                · apply Safe.mbind (Q' := fun r => ∀ x, r = .ok x → FdOk x)
+                    (try_fd (ih h2 base subpath _ h2ok))
+                  · intro r2 hr2
+                    apply Safe.mbind (Q' := fun _ => True) (lift_any (closeAll_safe _))
+                    · intro _ _; exact Safe.ofExcept (hr2 _ rfl)
+                    · intro e _; exact FdOk_err e
+                  · intro e _; exact FdOk_err e
+            · intro e _; exact FdOk_err e
+          · apply Safe.mbind (Q' := fun _ => True) (lift_any (close_safe _))
+            · intro _ _; exact FdOk_err _
+            · intro e _; exact FdOk_err e
+      · intro e _; exact FdOk_err e
+    · intro e _; exact FdOk_err e
+
+theorem readlinkH_safe (env : Env) (h : ProcH) (base : Procfs.Base) (subpath : Bytes) (hh : 0 ≤ h.fd) :
+    Safe (Disc b) (Procfs.readlinkH env h base subpath) (fun _ => True) := by
+  unfold Procfs.readlinkH
+  apply Safe.mbind (Q' := FdOk) (openH_safe env _ h base subpath _ hh)
+  · intro link hl
+    apply Safe.mbind (Q' := fun _ => True) (try_any (readlinkat_safe link (hl link rfl)))
+    · intro r _
+      apply Safe.mbind (Q' := fun _ => True) (lift_any (close_safe _))
+      · intro _ _; exact Safe.ofExcept trivial
+      · intro _ _; trivial
+    · intro _ _; trivial
+  · intro _ _; trivial
+
+theorem asUnsafePath_safe (env : Env) (fd : Fd) (hp : 0 ≤ env.proc.fd) :
+    Safe (Disc b) (Procfs.asUnsafePath env fd) (fun _ => True) := by
+  unfold Procfs.asUnsafePath
+  apply Safe.mbind (Q' := fun _ => True) (Safe.ofExcept trivial)
+  · intro sub _; exact readlinkH_safe env env.proc _ sub hp
+  · intro _ _; trivial
+
+/-- `open_follow` contains the one `openat` without `O_NOFOLLOW`, hence `Disc true` -/
+theorem openFollowH_safe (env : Env) (h : ProcH) (base : Procfs.Base) (subpath : Bytes) (oflags : Nat)
+    (hh : 0 ≤ h.fd) : Safe (Disc true) (Procfs.openFollowH env h base subpath oflags) FdOk := by
+  unfold Procfs.openFollowH
+  dsimp only
+  apply Safe.mbind (Q' := fun _ => True) (isOk_safe (readlinkH_safe env h base _ hh))
+  · intro isLink _
+    split
+    · exact openH_safe env _ h base _ _ hh
+    · apply Safe.mbind (Q' := fun r => ∀ d n, r = .ok (d, some n) → single n)
+      · apply Safe.ofExcept
+        intro d n hdn
+        exact pathSplit_single hdn
+      · intro pr hpr
+        obtain ⟨parent, trailing⟩ := pr
+        dsimp only
+        split
+        · exact FdOk_err _
+        · rename_i trailing
+          have ht : single trailing := hpr parent trailing rfl
+          apply Safe.mbind (Q' := FdOk) (openH_safe env _ h base parent _ hh)
+          · intro pfd hpfd
+            have hpf : 0 ≤ pfd := hpfd pfd rfl
+            apply Safe.mbind (Q' := fun _ => True)
+              (onErr_any (fetchMntId_safe pfd [] hpf single_nil) (close_safe _))
+            · intro pm _
+              apply Safe.mbind (Q' := fun _ => True)
+                (onErr_any (verifySameMnt_safe pm pfd trailing hpf ht) (close_safe _))
+              · intro _ _
+                have hfollow : Safe (Disc true) (Sys.openatFollow pfd trailing
+                    (if (Path.stripTrailingSlash subpath).2 = true then oflags ||| O_DIRECTORY else oflags) 0) FdOk := by
+                  apply openatFollow_safe
+                  intro _
+                  refine Or.inr (Or.inl ⟨rfl, hpf, ht, ?_⟩)
+                  have : ∀ f, f ||| O_CLOEXEC ||| O_NOCTTY = f ||| (O_CLOEXEC ||| O_NOCTTY) := by
+                    intro f; simp [Nat.or_assoc]
+                  rw [this]
+                  exact hasAll_or_left _ _
+                apply Safe.mbind (Q' := fun r => ∀ x, r = .ok x → FdOk x) (try_fd hfollow)
+                · intro r hr
+                  apply Safe.mbind (Q' := fun _ => True) (lift_any (close_safe _))
+                  · intro _ _; exact Safe.ofExcept (hr _ rfl)
+                  · intro e _; exact FdOk_err e
+                · intro e _; exact FdOk_err e
+              · intro e _; exact FdOk_err e
+            · intro e _; exact FdOk_err e
+          · intro e _; exact FdOk_err e
+      · intro e _; exact FdOk_err e
+  · intro e _; exact FdOk_err e
+
+theorem reopen_safe (env : Env) (fd : Fd) (flags : Nat) (hf : 0 ≤ fd) (hp : 0 ≤ env.proc.fd) :
+    Safe (Disc true) (Procfs.reopen env fd flags) FdOk := by
+  unfold Procfs.reopen
+  split
+  · exact FdOk_err _
+  · apply Safe.mbind (Q' := fun _ => True) (fstatat_safe fd [] hf (Or.inl single_nil))
+    · intro st _
+      split
+      · exact FdOk_err _
+      · apply Safe.mbind (Q' := fun _ => True) (Safe.ofExcept trivial)
+        · intro sub _; exact openFollowH_safe env env.proc _ sub _ hp
+        · intro e _; exact FdOk_err e
+    · intro e _; exact FdOk_err e
+
+theorem isMagiclinkFilesystem_safe (fd : Fd) (hf : 0 ≤ fd) :
+    Safe (Disc b) (Procfs.isMagiclinkFilesystem fd) (fun _ => True) := by
+  unfold Procfs.isMagiclinkFilesystem
+  apply Safe.mbind (Q' := fun _ => True) (fstatfs_safe fd hf)
+  · intro _ _; exact trivial
+  · intro _ _; trivial
